@@ -260,6 +260,38 @@ def r4_latest_answer_replaces(ctx):
     ctx.floor(R, "PendingAwait.responses writes", n, 1)
 
 
+def r4b_answers_not_dropped(ctx):
+    R = "R-C05-4b"
+    ctx.rule(R, "an await answer is never dropped: on every non-error path through Environment::handle_process_results the received results are "
+                "stored into the pending await or forwarded in Command::UpdateAwaitResults (the only exempt path: the sending worker cannot be "
+                "determined because the result map is empty)")
+    from qvlib.paths import agg_sites, consumer_calls, diverging_blocks, err_blocks, option_none_edges
+    F = ctx.facts
+    b = F.body("quiver_environment::environment::Environment::handle_process_results")
+    fl = Flow(b)
+    res = [l["i"] for l in b.locals if l.get("name") == "results" and l["i"] <= b.mir["argc"]]
+    if not res:
+        raise CheckError("R-C05-4b: parameter `results` not found")
+    fw = fl.forward({res[0]}, through_calls=("Clone::clone", "IntoIterator::into_iter", "Iterator::next", "Iterator::map", "Iterator::collect", "HashMap::iter", "HashMap::into_iter"))
+    consume = []
+    for bi, t in b.calls():
+        c = (t.get("callee") or "")
+        m = c.split("::")[-1]
+        if m in ("insert", "extend", "push", "entry") and len(t["args"]) >= 2 and any((op_place(a) or {}).get("l") in fw for a in t["args"][1:]):
+            cp = fl.canon_op(t["args"][0])
+            if cp and any(e[0] == "f" and e[1] in ("responses", "results", "answers", "pending_awaits") for e in cp[1]) or (cp and "PendingAwait" in b.local_ty(cp[0])):
+                consume.append(bi)
+    for bi, si, s in agg_sites(b, "messages::Command", "UpdateAwaitResults"):
+        if any((op_place(o) or {}).get("l") in fw for o in s["rv"]["ops"]):
+            consume.append(bi)
+    # exempt: sender worker unknown (None edge of the lookup chain that starts from results.keys().next())
+    sender = [l["i"] for l in b.locals if l.get("name") == "sender_worker_id"]
+    exempt = option_none_edges(b, set(sender) | fl.forward(set(sender)))
+    bad = explore(b, [0], avoid=consume, stop=err_blocks(b) | diverging_blocks(b), exempt_edges=exempt, want="return")
+    ctx.check(bool(consume) and bad is None, R, b.key + "|answer-kept", "every received answer is recorded for the pending await or forwarded to the awaiter's worker",
+              "a path through handle_process_results drops the received results (a completion or failure notice is lost and the awaiter hangs): %s" % path_desc(b, bad), b.loc(0))
+
+
 def r5_priority_order(ctx):
     R = "R-C05-5"
     ctx.rule(R, "sources are scanned in written order on every (re-)entry and the select completes at the first ready one: process_select_sources "
@@ -398,6 +430,7 @@ def run(ctx):
     r2_verdict_only(ctx)
     r3_error_propagation(ctx)
     r4_latest_answer_replaces(ctx)
+    r4b_answers_not_dropped(ctx)
     r5_priority_order(ctx)
     r6_timeouts(ctx)
     return (
